@@ -1007,14 +1007,20 @@ _dispatch_sync_complete_recurse(dispatch_queue_t dq, dispatch_queue_t stop_dq,
 		uintptr_t dc_flags)
 {
 	bool barrier = (dc_flags & DC_FLAG_BARRIER);
+	dispatch_queue_t tq;
 	do {
 		if (dq == stop_dq) return;
+		// the target has to be read while dq is still locked: once it is
+		// unlocked a deferred dispatch_set_target_queue() barrier can run
+		// (and the last reference can go away), and we would complete a
+		// hierarchy we never locked and leave the one we did lock locked
+		tq = dq->do_targetq;
 		if (barrier) {
 			dx_wakeup(dq, 0, DISPATCH_WAKEUP_BARRIER_COMPLETE);
 		} else {
 			_dispatch_lane_non_barrier_complete(upcast(dq)._dl, 0);
 		}
-		dq = dq->do_targetq;
+		dq = tq;
 		barrier = (dq->dq_width == 1);
 	} while (unlikely(dq->do_targetq));
 }
